@@ -537,6 +537,29 @@ def _setattr(interp, st, args, kwargs):
 BUILTINS['setattr'] = Model('setattr', _setattr)
 
 
+def _getattr(interp, st, args, kwargs):
+    """getattr(o, 'name'[, default]) with a literal name: the attribute; for a facade object without that attribute the default
+    (an attribute a change started to use may hold anything: unknown state - the default is only ONE of its possible values)"""
+    from .interp import Unknown
+    if len(args) not in (2, 3) or not isinstance(args[1], str):
+        raise Unsupported('getattr with a symbolic attribute name')
+    o, name = resolve(st, args[0]), args[1]
+    if isinstance(o, Obj) and name not in o._attrs and not hasattr(o, 'vf_getattr') and getattr(o, '_class_source', None) is None:
+        gk = f'attr:{o._name}.{name}'
+        if name in getattr(o, '_settable', ()) and gk in st.ghost:
+            yield st, st.ghost[gk]
+        elif getattr(o, '_lenient', False) or len(args) == 3:
+            u = Unknown(f'{o._name}.{name}', o)
+            yield st, u
+        else:
+            yield st, Raised(Exc('AttributeError'))
+        return
+    yield from ops.getattr_(interp, st, o, name)
+
+
+BUILTINS['getattr'] = Model('getattr', _getattr)
+
+
 def _repr(interp, st, args, kwargs):
     (v,) = args
     v = resolve(st, v)
